@@ -225,6 +225,36 @@ theorem C19_bounds_monotone (a b : Int × Nat) (ha : Representable a.1 a.2) (hb 
     rw [timestamp_eq_rfc _ (with_length ..) (version_with ..)]
     exact Nat.le_of_eq (rfcTs_max a ha).symm
 
+/-- GENERATED time-UUIDs under Cassandra's order: whatever the counter values and nodes (also of different
+    processes), a UUID generated from an instant of an earlier tick sorts strictly below one generated from an
+    instant of a later tick, and every generated UUID lies within the Min/Max bounds of its own instant — so a
+    time-range query finds exactly the generated UUIDs of the instants it names. (Within one tick the order is by
+    clock sequence and node as signed bytes, i.e. NOT by generation order.) -/
+theorem C19_generated_cass_order (c c' : Nat) (hw hw' : List UInt8) (a b : Int × Nat)
+    (ha : Representable a.1 a.2) (hb : Representable b.1 b.2) :
+    (tick a < tick b →
+      Spec.cassLe (timeUUID c hw a).1 (timeUUID c' hw' b).1 = true ∧
+      Spec.cassLe (timeUUID c' hw' b).1 (timeUUID c hw a).1 = false) ∧
+    Spec.cassLe (minTimeUUID a.1 a.2) (timeUUID c hw a).1 = true ∧
+    Spec.cassLe (timeUUID c hw a).1 (maxTimeUUID a.1 a.2) = true := by
+  have hts : ∀ (c : Nat) (hw : List UInt8) (x : Int × Nat), Representable x.1 x.2 →
+      Spec.rfcTimestamp (timeUUID c hw x).1 = tick x := by
+    intro c hw x hx
+    simp only [timeUUID, uuidFromTime]
+    rw [(tick_eq_bits x hx).1, rfcTimestamp_with _ _ _ (tick_eq_bits x hx).2]
+  refine ⟨fun h => cassLe_of_ts_lt _ _ (by rw [hts c hw a ha, hts c' hw' b hb]; exact h), ?_⟩
+  have hu : (timeUUID c hw a).1 = timeUUIDWith (bits64 (getTimestamp a.1 a.2)) ((c + 1) % 2 ^ 32) hw := rfl
+  have hts' : timestamp (timeUUID c hw a).1 = tick a := by
+    rw [hu, timestamp_with_mod]; rfl
+  exact (C19_min_max_exact a.1 a.2 ha _ (by rw [hu]; exact with_length ..) (by rw [hu]; exact version_with ..)
+    (by rw [hu]; exact variant_with ..)).mpr hts'
+
+/-- within one tick Cassandra's order is not generation order: the counter crossing 0x3fff → 0x4000 (clock field
+    wraps to 0) or 0x..7f → 0x..80 in the low clock byte (signed bytes) sorts the LATER UUID first -/
+example : Spec.cassLe (timeUUID 0x7f [1, 2, 3, 4, 5, 6] (1700000000, 0)).1 (timeUUID 0x7e [1, 2, 3, 4, 5, 6] (1700000000, 0)).1 = true ∧
+    Spec.cassLe (timeUUID 0x7e [1, 2, 3, 4, 5, 6] (1700000000, 0)).1 (timeUUID 0x7f [1, 2, 3, 4, 5, 6] (1700000000, 0)).1 = false := by
+  decide
+
 /-- "RFC 4122" in the property text is needed: a version-1 value of the same timestamp whose variant bits are
     not `10` (byte 8 = 0x7f, a legal NCS-variant value) sorts ABOVE `MaxTimeUUID` — the maximum's own byte 8 is
     0xbf (= -65 signed) because `TimeUUIDWith` stamps the variant over the clock constant 0x7f7f. -/
